@@ -423,7 +423,14 @@ let conc_oracle (case_toks : string list) (obs : string) : string =
   match parts with
   | [spec0; probes] :: [calls] :: _ ->
     let probes = List.map ustr_of_hex (split_on ',' probes) in
-    let threads = List.map (fun t -> if t = "-" then [] else List.map ustr_of_hex (split_on ',' t)) (split_on '|' calls) in
+    (* a call is <hex spec> (set_new_spec), U<hex spec> (push_temp_spec) or O (pop_temp_spec: it restores the specification
+       that was in force when the push read it - one of the submitted ones or the initial one) *)
+    let raw = List.map (fun t -> if t = "-" then [] else split_on ',' t) (split_on '|' calls) in
+    let with_stack = List.exists (List.exists (fun c -> c = "O" || (String.length c > 0 && c.[0] = 'U'))) raw in
+    let threads = List.map (List.filter_map (fun c ->
+        if c = "O" then None
+        else if String.length c > 0 && c.[0] = 'U' then Some (ustr_of_hex (String.sub c 1 (String.length c - 1)))
+        else Some (ustr_of_hex c))) raw in
     (* specification ids: 0 = the initial one, then the calls in order of appearance *)
     let table = ref [ (0, spec_of_string (ustr_of_hex spec0)) ] in
     let next = ref 1 in
@@ -448,6 +455,9 @@ let conc_oracle (case_toks : string list) (obs : string) : string =
        if candidates = [] then "fail filtering-follows-none-of-the-submitted-specifications" else
        if List.for_all (fun (i, _) -> gate < int_of_nat (ml (nat_of_int i))) candidates then
          Printf.sprintf "fail gate-%d-hides-records-of-the-active-specification" gate else
+       (* push / pop are not calls of the interleaving model (which specification a pop submits depends on the schedule): for
+          such cases the property on the final state is the whole verdict *)
+       if with_stack then "pass" else
        (* the correspondence: the model, driven by the observed order, ends in the same state *)
        let sys0 = cinit ml O code_fixed O (List.map (List.map nat_of_int) ids) in
        let final = crun ml O sys0 (schedule_of true evs) in
